@@ -28,18 +28,22 @@ Bases == Params.bases
 
 -----------------------------------------------------------------------------
 (* gen *)
-GenPats  == SetToSeq(Strings(ToSet(Params.pa), Params.pn) \ {<<>>})
-GenPaths == SetToSeq(Strings(ToSet(Params.ta), Params.tn))
-
-Gen == /\ ndJsonSerialize(IOEnv.PATS, [i \in DOMAIN GenPats |-> [s |-> GenPats[i]]])
-       /\ ndJsonSerialize(IOEnv.PATHS, [i \in DOMAIN GenPaths |-> [s |-> GenPaths[i]]])
-       /\ PrintT(<<"GEN", Len(GenPats), Len(GenPaths)>>)
+\* (the step operators take a dummy argument: TLC evaluates argument-less constant definitions eagerly
+\*  in every run, which is wanted for the tables of the judge below but not for a whole step)
+Gen(dummy) ==
+  LET pats  == SetToSeq(Strings(ToSet(Params.pa), Params.pn) \ {<<>>})
+      paths == SetToSeq(Strings(ToSet(Params.ta), Params.tn))
+  IN /\ ndJsonSerialize(IOEnv.PATS, [i \in DOMAIN pats |-> [s |-> pats[i]]])
+     /\ ndJsonSerialize(IOEnv.PATHS, [i \in DOMAIN paths |-> [s |-> paths[i]]])
+     /\ PrintT(<<"GEN", Len(pats), Len(paths)>>)
 
 -----------------------------------------------------------------------------
 (* judge *)
-Pats  == ndJsonDeserialize(IOEnv.PATS)
-Paths == ndJsonDeserialize(IOEnv.PATHS)
-Rows  == ndJsonDeserialize(IOEnv.OBS)     \* [p, b, reg, dir]: indices of the paths reported as matching
+InJudge == IOEnv.STEP = "judge"
+Pats  == IF InJudge THEN ndJsonDeserialize(IOEnv.PATS) ELSE <<>>
+Paths == IF InJudge THEN ndJsonDeserialize(IOEnv.PATHS) ELSE <<>>
+\* rows [p, b, reg, dir]: for pattern p and base b, the indices of the paths reported as matching per mode
+Rows  == IF InJudge THEN ndJsonDeserialize(IOEnv.OBS) ELSE <<>>
 NB == Len(Bases)
 NT == Len(Paths)
 
@@ -51,10 +55,20 @@ TIdx == TLCEval([b \in 1..NB |-> [j \in 1..NT |-> CHOOSE d \in DOMAIN DistTI[b] 
 \* the distinct (PatInfo, base) of the rows and the verdict table of each
 RowPI(o) == [pi |-> PatInfo(Pats[o.p].s, Bases[o.b]), b |-> o.b]
 DistPI == {RowPI(Rows[r]) : r \in DOMAIN Rows}
+\* tabulated Regions and InLang: every string in which a match is looked for, its regions, and for every
+\* canonical pattern of the rows the regions that are in its language
+HayOf(tc) == {tc, DirOf(tc), DirOfSep(tc)}
+Hay == TLCEval(UNION {UNION {HayOf(DistTI[b][d].tc) : d \in DOMAIN DistTI[b]} : b \in 1..NB})
+RegTab == TLCEval([h \in Hay |-> [real \in BOOLEAN |-> [lax \in BOOLEAN |-> Regions(h, real, lax)]]])
+AllRegions == TLCEval(UNION {RegTab[h][TRUE][TRUE] \cup RegTab[h][FALSE][TRUE] : h \in Hay})
+LangTab == TLCEval([pc \in {x.pi.pc : x \in DistPI} |-> {r \in AllRegions : InLang(pc, r)}])
+TabRegions(t, real, lax) == RegTab[t][real][lax]
+TabIn(pc, r) == r \in LangTab[pc]
+
 Table == TLCEval([x \in DistPI |->
-            LET reg == [d \in DOMAIN DistTI[x.b] |-> VerdictI(x.pi, DistTI[x.b][d], "reg")]
+            LET reg == [d \in DOMAIN DistTI[x.b] |-> VerdictWith(TabRegions, TabIn, x.pi, DistTI[x.b][d], "reg")]
             IN [reg |-> reg,
-                dir |-> IF x.pi.trail THEN [d \in DOMAIN DistTI[x.b] |-> VerdictI(x.pi, DistTI[x.b][d], "dir")] ELSE reg]])
+                dir |-> IF x.pi.trail THEN [d \in DOMAIN DistTI[x.b] |-> VerdictWith(TabRegions, TabIn, x.pi, DistTI[x.b][d], "dir")] ELSE reg]])
 
 BadOf(o, mode, got, want) ==
   {[p |-> Pats[o.p].s, t |-> Paths[j].s, base |-> Bases[o.b], mode |-> mode,
@@ -77,36 +91,45 @@ StatOf(x) ==
    f |-> CountOf(tab.reg, "F") + (IF x.pi.trail THEN CountOf(tab.dir, "F") ELSE 0),
    open |-> CountOf(tab.reg, "Open") + (IF x.pi.trail THEN CountOf(tab.dir, "Open") ELSE 0)]
 
-\* raw counts over all cases of the rows
-RawCount(v) ==
-  LET RECURSIVE Sum(_)
-      Sum(r) == IF r = 0 THEN 0
-                ELSE LET tab == Table[RowPI(Rows[r])]
-                         b == Rows[r].b
-                     IN Sum(r - 1) + Cardinality({j \in 1..NT : tab.reg[TIdx[b][j]] = v})
-                                   + Cardinality({j \in 1..NT : tab.dir[TIdx[b][j]] = v})
-  IN Sum(Len(Rows))
+\* raw counts over all cases of the rows (every path, both modes)
+Mult == TLCEval([b \in 1..NB |-> [d \in DOMAIN DistTI[b] |-> Cardinality({j \in 1..NT : TIdx[b][j] = d})]])
+\* sum of f over lo..hi by halving (TLC's evaluation stack is shallow)
+RECURSIVE SumRange(_, _, _)
+SumRange(f(_), lo, hi) == IF lo > hi THEN 0 ELSE IF lo = hi THEN f(lo)
+                          ELSE LET mid == (lo + hi) \div 2 IN SumRange(f, lo, mid) + SumRange(f, mid + 1, hi)
+RowCount(r, v) ==
+  LET tab == Table[RowPI(Rows[r])]
+      b == Rows[r].b
+      W(d) == (IF tab.reg[d] = v THEN Mult[b][d] ELSE 0) + (IF tab.dir[d] = v THEN Mult[b][d] ELSE 0)
+  IN SumRange(W, 1, Len(DistTI[b]))
+RawCount(v) == LET R(r) == RowCount(r, v) IN SumRange(R, 1, Len(Rows))
 
-Judge == /\ ndJsonSerialize(IOEnv.OUT, SetToSeq(Bad))
+Judge(dummy) ==
+         /\ ndJsonSerialize(IOEnv.OUT, SetToSeq(Bad))
          /\ ndJsonSerialize(IOEnv.STATS, SetToSeq({StatOf(x) : x \in DistPI}))
          /\ PrintT(<<"JUDGE", "ROWS", Len(Rows), "CASES", 2 * NT * Len(Rows), "BAD", Cardinality(Bad),
                      "T", RawCount("T"), "F", RawCount("F"), "OPEN", RawCount("Open")>>)
 
 -----------------------------------------------------------------------------
 (* laws *)
-LawP == Strings(ToSet(Params.pa), Params.lawn)
-LawT == Strings(ToSet(Params.ta), Params.lawn)
-LawB == ToSet(Bases)
+LawP(dummy) == Strings(ToSet(Params.pa), Params.lawn)
+LawT(dummy) == Strings(ToSet(Params.ta), Params.lawn)
+LawB(dummy) == ToSet(Bases)
 Mine(S) == LET q == SetToSeq(S) IN {q[i] : i \in {k \in DOMAIN q : k % atoi(IOEnv.SHARDS) = atoi(IOEnv.SHARD)}}
 
-Laws == /\ Assert(LawCanon(Mine(Strings(ToSet(Params.pa), Params.lawn + 2))), "L1 canonical form")
-        /\ Assert(LawRespell(Mine(LawP), LawT, LawB), "L2 re-spelling")
-        /\ Assert(LawWiden(Mine(LawP), LawT, LawB), "L3 widening")
-        /\ Assert(LawLiteral(Mine(LawP), LawT, LawB), "L4 literal patterns")
-        /\ Assert(LawBelow(Mine(LawP), LawT, LawB), "L5 below a matched directory")
-        /\ PrintT(<<"LAWS", Cardinality(Mine(LawP)), Cardinality(LawT), Cardinality(LawB)>>)
+Holds(name, refuting) == IF refuting = {} THEN TRUE ELSE Assert(FALSE, <<name, "refuted by", refuting>>)
+Laws(dummy) ==
+  LET P == Mine(LawP(0))
+      T == LawT(0)
+      B == LawB(0)
+  IN /\ Holds("L1 canonical form", Refuting1(LawCanon, Mine(Strings(ToSet(Params.pa), Params.lawn + 2))))
+     /\ Holds("L2 re-spelling", Refuting3(LawRespell, P, T, B))
+     /\ Holds("L3 widening", Refuting3(LawWiden, P, T, B))
+     /\ Holds("L4 literal patterns", Refuting3(LawLiteral, P, T, B))
+     /\ Holds("L5 below a matched directory", Refuting3(LawBelow, P, T, B))
+     /\ PrintT(<<"LAWS", Cardinality(P) * Cardinality(T) * Cardinality(B)>>)
 
-ASSUME CASE IOEnv.STEP = "gen"   -> Gen
-         [] IOEnv.STEP = "judge" -> Judge
-         [] IOEnv.STEP = "laws"  -> Laws
+ASSUME CASE IOEnv.STEP = "gen"   -> Gen(0)
+         [] IOEnv.STEP = "judge" -> Judge(0)
+         [] IOEnv.STEP = "laws"  -> Laws(0)
 =============================================================================
